@@ -1,8 +1,13 @@
 package checks
 
 import (
+	"encoding/json"
 	"fmt"
+	"reflect"
+	"strings"
 	"time"
+
+	ap "github.com/go-ap/activitypub"
 
 	"verif/internal/canon"
 	"verif/internal/engine"
@@ -106,6 +111,7 @@ func c01Run(c *engine.Ctx) {
 			}
 		}
 	}
+	c01Scalars(c)
 	if c.Quick() {
 		return
 	}
@@ -129,5 +135,89 @@ func c01Run(c *engine.Ctx) {
 				}
 			}
 		}
+	}
+}
+
+// c01Scalars round-trips the types that are not items through their own MarshalJSON / UnmarshalJSON pair.
+func c01Scalars(c *engine.Ctx) {
+	type sc struct {
+		name string
+		mk   func() any
+		zero func() any
+	}
+	var cases []sc
+	add := func(name string, mk func() any, zero func() any) { cases = append(cases, sc{name, mk, zero}) }
+	for i := range universe.Nested {
+		s := &universe.Nested[i]
+		for _, f := range s.Fields {
+			for _, sh := range universe.ShapesFor(f, universe.JSON, false) {
+				r := universe.Recipe{Struct: s, Value: true, Sets: []universe.Set{{Field: f, Shape: sh}}}
+				add(r.String(), func() any { return r.Build() }, func() any { return reflect.New(s.Type).Interface() })
+			}
+		}
+		var all []universe.Set
+		for _, f := range s.Fields {
+			if sh := universe.ShapesFor(f, universe.JSON, true); len(sh) > 0 {
+				all = append(all, universe.Set{Field: f, Shape: sh[0]})
+			}
+		}
+		r := universe.Recipe{Struct: s, Value: true, Sets: all}
+		add(r.String()+"(all)", func() any { return r.Build() }, func() any { return reflect.New(s.Type).Interface() })
+	}
+	for _, sh := range universe.Shapes(universe.KNLV) {
+		sh := sh
+		add("NaturalLanguageValues "+sh.Name, func() any { return sh.Build(&universe.Gen{}).Interface() }, func() any { return new(ap.NaturalLanguageValues) })
+	}
+	add("IRIs[3]", func() any { g := &universe.Gen{}; return ap.IRIs{g.IRI(), g.IRI(), g.IRI()} }, func() any { return new(ap.IRIs) })
+	add("IRIs[1]", func() any { g := &universe.Gen{}; return ap.IRIs{g.IRI()} }, func() any { return new(ap.IRIs) })
+	add("IRI", func() any { return (&universe.Gen{}).IRI() }, func() any { return new(ap.IRI) })
+	add("MimeType", func() any { return ap.MimeType("text/html; charset=utf-8") }, func() any { return new(ap.MimeType) })
+	for _, sh := range universe.ItemsShapes() {
+		sh := sh
+		add("ItemCollection "+sh.Name, func() any { return sh.Build(&universe.Gen{}).Interface() }, nil)
+	}
+	for _, k := range cases {
+		k := k
+		class := "C01|json-rt-scalar|" + strings.Fields(k.name)[0]
+		c.Do(class, func() string { return "MarshalJSON/UnmarshalJSON method pair of " + k.name }, func(t *engine.T) {
+			x := k.mk()
+			want := canon.Of(x, canon.JSON)
+			t.State(engine.Hash64("scalar", k.name, want.String()), true)
+			m, ok := x.(json.Marshaler)
+			if !ok {
+				t.Fail(class+"|no-marshaler", "%T has no MarshalJSON", x)
+				return
+			}
+			b, err := m.MarshalJSON()
+			t.Ops(1)
+			if err != nil || len(b) == 0 {
+				t.Fail(class+"|encode-failed", "MarshalJSON: %d bytes, %v for %s", len(b), err, want)
+				return
+			}
+			var got *canon.Node
+			if k.zero == nil {
+				// an item list has no UnmarshalJSON of its own: it is read back by the package function
+				it, err := ap.UnmarshalJSON(b)
+				if err != nil {
+					t.Fail(class+"|decode-error", "%v\njson: %s", err, b)
+					return
+				}
+				got = canon.Of(it, canon.JSON)
+				if want != nil && want.K == "list" && len(want.L) == 1 {
+					want = want.L[0] // a one-element list is written as its element
+				}
+			} else {
+				z := k.zero()
+				if err := z.(json.Unmarshaler).UnmarshalJSON(b); err != nil {
+					t.Fail(class+"|decode-error", "%v\njson: %s", err, b)
+					return
+				}
+				got = canon.Of(z, canon.JSON)
+			}
+			t.Ops(1)
+			for _, d := range canon.Diff(want, got) {
+				t.Fail("C01|json-rt-scalar|"+deltaKey(strings.Fields(k.name)[0], d), "%s\njson: %s", d, b)
+			}
+		})
 	}
 }
